@@ -172,14 +172,14 @@ SelWith(t, m, x, y, r) ==
 OneOf(t) == IF t = "f32" THEN <<0, 0, 128, 63>> ELSE IF t = "f64" THEN <<0, 0, 0, 0, 0, 0, 240, 63>> ELSE OneN(TypeTab[t].nb)
 RECURSIVE Flat(_, _)
 Flat(ss, i) == IF i > Len(ss) THEN <<>> ELSE ss[i] \o Flat(ss, i + 1)
-BoolOpsMask == {"and", "or", "xor", "andnot", "eq", "neq", "land", "lor", "fand", "for", "fxor", "not", "lnot", "fnot", "id",
+BoolOpsMask == {"and", "or", "xor", "and=", "or=", "xor=", "andnot", "eq", "neq", "land", "lor", "fand", "for", "fxor", "not", "lnot", "fnot", "id",
                 "get", "cast_i", "cast_u", "cast_f", "from_mask"}
 BoolOpsNum  == {"mask", "all", "any", "none", "count"}
 BoolOpsLane == {"tobatch", "bitcast", "select01"}
 BoolExpected(op, t, n, p, q) ==
-  CASE op \in {"and", "land", "fand"} -> MAnd(p, q)
-    [] op \in {"or", "lor", "for"}    -> MOr(p, q)
-    [] op \in {"xor", "fxor", "neq"}  -> MXor(p, q)
+  CASE op \in {"and", "land", "fand", "and="} -> MAnd(p, q)
+    [] op \in {"or", "lor", "for", "or="}    -> MOr(p, q)
+    [] op \in {"xor", "fxor", "neq", "xor="}  -> MXor(p, q)
     [] op = "andnot" -> MAndNot(p, q)
     [] op = "eq"     -> MEq(p, q)
     [] op \in {"not", "lnot", "fnot"} -> MNot(p)
